@@ -202,6 +202,12 @@ func (p *c16) pipeline(rec *core.Recorder, r *core.Rand, viaLoader bool) {
 	if wildEntry != "" {
 		entry = wildEntry
 	}
+	if core.Hash64(canonSrcs(srcs), entry, "suffix-twin")%3 == 0 {
+		// a second template whose name is the entry's name plus ".twig" (and one minus it): two names, two templates
+		srcs[entry+".twig"] = c02Marker(entry+".twig") + "{{ 2 + 2 }}"
+		srcs[strings.TrimSuffix(entry, ".twig")+".html.twig"] = c02Marker("html") + "{{ 3 + 3 }}"
+		rec.Count("suffix-twins", 1)
+	}
 	total := 0
 	for _, s := range srcs {
 		total += len(s)
